@@ -48,7 +48,8 @@ ASSUMPTIONS = [
     'a NOTIFICATION code/subcode is "defined" when it is in RFC 4271/4486/5492/6608/7313/8538/9234/9384 or one of the extensions exabgp documents (2/8-10, 7/2); subcode 0 is accepted for every code',
     'which code a malformed input gets is not checked (C08/C10)',
     f'work bound: Python call events <= {target.COST_A} + {target.COST_B} * len(body) (qa corpus fits 650 + 60 * len; at least 10x slack on both) and stack depth <= {target.DEPTH_MAX} '
-    '(deepest qa message 23 frames: room for about 95 attributes of per-attribute recursion); wall time is not an oracle',
+    '(deepest qa message 23 frames: room for about 95 attributes of per-attribute recursion); a decode is abandoned at six times the bound (calls + builtin calls); '
+    'wall time is not an oracle, except a 120 s watchdog that reports a decode which makes no call at all and never returns',
     'valid-unusual with repeated unknown attribute codes: RFC 7606 3.g keeps the first and discards the rest, RFC 4271 6.3 allowed 3/1; both are accepted, any other refusal is a violation',
     'an exception other than Notify inside Message.unpack would be answered 1/0 by the catch-all of read_message (signature prefix decode:), one raised while the '
     'decoded message is rendered escapes read_message (prefix render:); both break the property',
@@ -74,12 +75,39 @@ def addpath_for(neg: int):
 # ---------------------------------------------------------------------------- the shared check
 
 
+WATCHDOG_S = 120
+
+
+class _Stuck(BaseException):
+    pass
+
+
+def _alarm(_signo, _frame):
+    raise _Stuck()
+
+
+def guarded(msg_type: int, body: bytes, neg: int) -> tuple:
+    """target.measured under a last-resort watchdog: the work bound abandons a loop that makes calls, this one a loop that makes none"""
+    import signal
+
+    previous = signal.signal(signal.SIGALRM, _alarm)
+    signal.setitimer(signal.ITIMER_REAL, WATCHDOG_S)
+    try:
+        return target.measured(msg_type, body, target.negotiated_for(neg))
+    except _Stuck:
+        sys.setprofile(None)
+        return ('violation', 'no-termination:watchdog', f'still decoding after {WATCHDOG_S} s'), target.Meter()
+    finally:
+        signal.setitimer(signal.ITIMER_REAL, 0)
+        signal.signal(signal.SIGALRM, previous)
+
+
 def judge(case: dict, expect_ok: bool = False, accept: tuple = ()) -> dict:
     msg_type = int(case['type'])
     neg = int(case['neg']) % NNEG
     body = bytes.fromhex(case['hex']) if 'hex' in case else case['_body']
     body = body[: target.msg_size(neg) - 19]
-    outcome, meter = target.measured(msg_type, body, target.negotiated_for(neg))
+    outcome, meter = guarded(msg_type, body, neg)
     classes = [f'type:{msg_type if msg_type in (1, 2, 3, 4, 5, 6) else "unknown"}', f'neg:{target.NEG_NAMES[neg]}']
     shown = body.hex() if len(body) <= 600 else f'{body[:300].hex()}...({len(body)} bytes)'
     where = f'type {msg_type} neg {neg}:{target.NEG_NAMES[neg]} body {shown}'
@@ -90,7 +118,7 @@ def judge(case: dict, expect_ok: bool = False, accept: tuple = ()) -> dict:
     bad = target.cost_violation(meter, len(body))
     if bad:
         # a first execution pays for lazy imports: measure again before believing it
-        outcome, meter = target.measured(msg_type, body, target.negotiated_for(neg))
+        outcome, meter = guarded(msg_type, body, neg)
         bad = target.cost_violation(meter, len(body))
         if bad:
             if target.tolerated(bad[1]):
